@@ -410,6 +410,18 @@ Theorem dependency_versions_exact : forall recorded current,
 Proof. exact stale_by_list_exact. Qed.
 Print Assumptions dependency_versions_exact.
 
+(* /repo HEAD (fix 6677351) skips the dependencies the last run of Process() did not read: the comparison is exact
+   on the dependencies that WERE read, and coincides with the plain one when every dependency was read (all nodes of
+   the harness read all their inputs; parameters are always Processed). *)
+Theorem dependency_versions_exact_on_read_inputs :
+  (forall unread recorded current,
+     stale_masked unread recorded current = false <->
+     Forall (fun x => fst x = true \/ fst (snd x) = snd (snd x)) (combine unread (combine recorded current))) /\
+  (forall recorded current, List.length recorded = List.length current ->
+     stale_masked (repeat false (List.length recorded)) recorded current = stale_by_list recorded current).
+Proof. split; [exact stale_masked_exact | exact stale_masked_all_read]. Qed.
+Print Assumptions dependency_versions_exact_on_read_inputs.
+
 Theorem folded_dependency_stamp_refuted :
   (forall sh s0 a b, N.testbit b sh = false ->
      fold_stamp sh s0 [N.succ (2 * a); (b + 2 ^ sh)%N] = fold_stamp sh s0 [(2 * a)%N; b]) /\
